@@ -199,6 +199,13 @@ def unwrap(param):
         return numpy.float64(param[1])
     if isinstance(param, (list, tuple)) and param[0] == 'nan':
         return float('nan')
+    if isinstance(param, (list, tuple)) and param[0] == 'exotic':
+        # real numbers that are neither float nor int: the library may take them or refuse them, but never half-way
+        import decimal
+        import fractions
+        import numpy
+        return {'fraction': lambda: fractions.Fraction(param[2]).limit_denominator(1000), 'float32': lambda: numpy.float32(param[2]),
+                'int64': lambda: numpy.int64(param[2]), 'decimal': lambda: decimal.Decimal(str(param[2]))}[param[1]]()
     return param
 
 
@@ -224,9 +231,10 @@ def judge(acc, case, func, da, db, a, b, param, before_a, before_b, ids, outcome
     """Post-condition of one declaration call on elements a, b."""
     numpy_param = isinstance(param, (list, tuple))
     tag = param[0] if numpy_param else None
+    exotic = param[1] if tag == 'exotic' else None
     param = float(unwrap(param)) if numpy_param else param
     if numpy_param:
-        sigpfx = sigpfx + ('/numpy-float' if tag == 'np' else '/nan')
+        sigpfx = sigpfx + ('/numpy-float' if tag == 'np' else ('/nan' if tag == 'nan' else f'/real-number-{exotic}'))
     same = a is b
     info = None
     if func == 'gear':
@@ -235,6 +243,8 @@ def judge(acc, case, func, da, db, a, b, param, before_a, before_b, ids, outcome
         dec, info = ref_worm(da, db, same, param)
     else:
         dec = ref_joint(da, db, same)
+    if exotic and dec == 'accept':
+        dec = 'either'
     pair = f'{da[0]}>{db[0]}'
     acc.outcomes[(func, dec, 'ok' if outcome == 'ok' else 'raised')] += 1
     if outcome != 'ok':
@@ -323,13 +333,13 @@ def same_obj(a, b):
     return a is b
 
 
-EFFS = [-0.1, 0, 0.5, 1, 1.1, '0.9', ['np', 0.9], ['nan']]
+EFFS = [-0.1, 0, 0.5, 1, 1.1, '0.9', ['np', 0.9], ['nan'], ['exotic', 'fraction', 0.9], ['exotic', 'float32', 0.5], ['exotic', 'int64', 1], ['exotic', 'decimal', 0.5]]
 
 
 def frictions(desc_worm):
     alpha, beta = math.radians(desc_worm[2]), helix_rad(desc_worm)
     fs = math.cos(alpha) * math.tan(beta)
-    return [-0.1, 0, 0.5 * fs, 0.98 * fs, 1.02 * fs, min(1.0, 2 * fs), 1, 1.1, ['np', 0.5 * fs], ['np', min(1.0, 1.5 * fs)], ['nan']]
+    return [-0.1, 0, 0.5 * fs, 0.98 * fs, 1.02 * fs, min(1.0, 2 * fs), 1, 1.1, ['np', 0.5 * fs], ['np', min(1.0, 1.5 * fs)], ['nan'], ['exotic', 'fraction', round(0.5 * fs, 3)], ['exotic', 'float32', 0.5 * fs]]
 
 
 def check_one_step(acc, ia, ib, func, param, U, subclass=False):
